@@ -371,7 +371,7 @@ func c01R2(c *Ctx) {
 	f := c01FlowCached(P)
 	apply := P.Func("servitor/ansi", "Apply")
 	if len(apply.Params) != 2 {
-		broken("ansi.Apply no longer has (text, style) parameters")
+		unfollowed("ansi.Apply no longer has (text, style) parameters")
 	}
 	styleParam := apply.Params[1]
 	colors := map[*types.Var]bool{}
